@@ -304,15 +304,17 @@ JudgePsf(e) ==
 
 --------------------------------------------------------------------------
 (* working F-number and cut-off                                              *)
-\* q = [lam (micrometres), F (paraxial image-space F-number), finite, XPD, EPD, mag]
-\* working F-number  Fw = F (1 + |m| / p),  p = |XPD| / EPD  (F itself for an object at infinity);
-\* cut-off  fc = 1 / (lam_mm Fw), lam_mm = lam / 1000.  Cross-multiplied:
-\*   f = x fc   <=>   f lam F (|XPD| + |m| EPD) = 1000 x |XPD|
-CutL(f, q) == LET F == FTrunc(FMul(q.lam, q.F)) IN
-              IF q.finite THEN FTMul(FTMul(f, F), FAdd(DAbs(q.XPD), FMul(DAbs(q.mag), q.EPD))) ELSE FTMul(f, F)
-CutR(x, q) == LET t == FMul(DInt(1000), x) IN IF q.finite THEN FTMul(t, DAbs(q.XPD)) ELSE t
-QOK(q) == /\ IsFin(q.lam) /\ q.lam.s = 1 /\ IsFin(q.F) /\ q.F.s # 0
-          /\ q.finite => IsFin(q.XPD) /\ q.XPD.s # 0 /\ IsFin(q.EPD) /\ q.EPD.s = 1 /\ IsFin(q.mag)
+\* q = [lam (micrometres), nu = n' |u'| of the paraxial marginal ray in image space, F (paraxial
+\*      image-space F-number, only used to explain a failing clause), finite]
+\* working F-number  Fw = 1 / (2 n' |u'|)  (its definition; for an object at infinity in air this
+\* is f / EPD);  cut-off  fc = 1 / (lam_mm Fw) = 2 n' |u'| / lam_mm,  lam_mm = lam / 1000.
+\* Cross-multiplied:   f = x fc   <=>   f lam = 2000 x nu
+CutL(f, q) == FTMul(f, q.lam)
+CutR(x, q) == FTMul(FMul(DInt(2000), x), q.nu)
+QOK(q) == /\ IsFin(q.lam) /\ q.lam.s = 1 /\ IsFin(q.nu) /\ q.nu.s = 1
+\* the cut-off an infinite-conjugate F-number would give: f lam F = 1000 x  (explanations only)
+IsCutInfF(f, x, q, bits) == /\ IsFin(f) /\ IsFin(q.F)
+                            /\ FClose(DAbs(FTMul(f, FTrunc(FMul(q.lam, q.F)))), FMul(DInt(1000), x), bits)
 \* f = x * fc within 2^-bits
 IsCut(f, x, q, bits) == IsFin(f) /\ FClose(DAbs(CutL(f, q)), CutR(x, q), bits)
 
@@ -517,7 +519,7 @@ JudgeGeoMtf(e) ==
    THEN {} ELSE {"geo_value"}) \cup
   \* explanation offered for a failing "geo_max_freq": the cut-off is 1 / (lam_mm F), F the
   \* infinite-conjugate F-number, for an object at finite distance
-  (IF q.finite /\ IsCut(e.maxf, DOne, [q EXCEPT !.finite = FALSE], ONEBITS) /\ ~IsCut(e.maxf, DOne, q, ONEBITS)
+  (IF q.finite /\ IsCutInfF(e.maxf, DOne, q, ONEBITS) /\ ~IsCut(e.maxf, DOne, q, ONEBITS)
    THEN {"~cutoff_uses_infinite_conjugate_F"} ELSE {})
 
 Judge(e) == IF e.kind = "psf" THEN JudgePsf(e)
